@@ -222,6 +222,8 @@ REGISTRY = {
         level="proof",
         replay=dict(script="replay/c18.py", args=["search", "3"], timeout=900),
         bounded=[dict(name="audit-scenarios", script="replay/found.py", args=["C18", "{tier}"], timeout=1500, bound="scenarios contributed by audit sub-agents (replay/found/MANIFEST.json): repaired defects must stay repaired, recorded findings are probed"), 
+            dict(name="real-store-time-zones", script="replay/c18.py", args=["e2e"], timeout=900,
+                 bound="real cache directory, 6 entries with access times set 10 min .. 26 h back, 5 limit combinations (age / items), in fresh processes under TZ = UTC, EST5, JST-9, Europe/Paris: the survivors are exactly those the limits keep"),
             dict(name="memstr_to_bytes-exhaustive", script="replay/c18.py", args=["memstr", "3000"],
                  bound="integer literals 0..2999 and 3 large ones x {K,M,G}; 7 malformed; 3 fractional"),
             dict(name="lru-prefix-small-scope", script="replay/c18.py", args=["search", "2"],
